@@ -10,6 +10,7 @@
 #include <xenium/backoff.hpp>
 #include <xenium/parameter.hpp>
 #include <xenium/policy.hpp>
+#include <xenium/detail/port.hpp>
 
 #include <cassert>
 #include <functional>
@@ -252,6 +253,7 @@ auto harris_michael_list_based_set<Key, Policies...>::iterator::operator++() -> 
   assert(info.cur.get() != nullptr);
   auto next = info.cur->next.load(std::memory_order_relaxed);
   guard_ptr tmp_guard;
+  XENIUM_VERIF_POINT("harris_michael_list_based_set.iterator_inc.before_acquire");
   // (1) - this acquire-load synchronizes-with the release-CAS (7, 8, 10, 13)
   while (next.mark() == 0 && !tmp_guard.acquire_if_equal(info.cur->next, next, std::memory_order_acquire)) {
     // cur is not marked, only its successor has changed (insert/erase right behind cur) -> retry with the new successor;
